@@ -68,7 +68,12 @@ def typecheck(B, t, o, path, out):
                 return
             if isinstance(o, (list, tuple)) and all(isinstance(x, (bytes, bytearray, memoryview)) for x in o):
                 return
-            out.append((path, 'ByteArray slot holds %s' % type(o).__name__))
+            if isinstance(o, tuple) and len(o) == 1 and (isinstance(o[0], str) or (
+                    isinstance(o[0], (list, tuple)) and all(isinstance(c, (str, bytes, bytearray, memoryview)) for c in o[0]))):
+                # text, or a sequence of text / binary chunks, handed over undecoded inside a one-element tuple
+                out.append((path, 'ByteArray slot holds undecoded text or chunks in a tuple'))
+                return
+            out.append((path, 'ByteArray slot holds %s %r' % (type(o).__name__, repr(o)[:60])))
             return
         ek = gen.eqkind(kind)
         want = NATIVE[ek]
@@ -125,7 +130,7 @@ def classify_outcome(R, B, md, r_exc, r_exc_stage, fault, case, what):
             typecheck(B, at, o, an, probs)
         if probs:
             mech = 'untyped_value_delivered:%s:%s' % (case['family'], case['mutation'])
-            if case['family'].startswith('msgpack') and all('ByteArray slot holds tuple' in p[1] for p in probs):
+            if case['family'].startswith('msgpack') and all('ByteArray slot holds undecoded text or chunks in a tuple' in p[1] for p in probs):
                 mech = 'msgpack_bytearray_chunks_not_bytes'
             R.violation('%s: user code received %s' % (what, '; '.join('%s: %s' % p for p in probs[:3])), case, mech=mech)
             return 'bad'
@@ -319,7 +324,10 @@ SUBST = [('null', None), ('int', 5), ('str', 'text'), ('bool', True), ('float', 
          # native dates (YAML), zero-like values of every kind
          ('bin_not_utf8', b'\xff\xfe'), ('bigint', 2 ** 70), ('negbigint', -2 ** 70), ('nan', float('nan')), ('inf', float('inf')),
          ('date', datetime.date(2020, 1, 2)), ('datetime', datetime.datetime(2020, 1, 2, 3, 4, 5)), ('zero', 0), ('false', False), ('empty_str', ''),
-         ('zero_float', 0.0)]
+         ('zero_float', 0.0),
+         # sequences that hold a genuine chunk of text / binary next to something else (a binary value may travel as a sequence of chunks)
+         ('chunks_bytes_int', [b'ab', 5]), ('chunks_map_bytes', [{'x': 1}, b'cd']), ('chunks_str_float', ['YWI=', 5.5]),
+         ('chunks_bytes_list', [b'ab', [b'cd']]), ('chunks_bytes_null', [b'ab', None]), ('chunks_bytes_bool', [b'ab', True])]
 
 
 def positions(doc, path=()):
@@ -408,7 +416,7 @@ def dict_mutations(R, ir, fmt, wrappers, rng, tier, repro):
             for k in p:
                 cur = cur[k]
             for sname, sval in SUBST:
-                if kind_of(sval) == kind_of(cur) and sname not in ('list', 'map', 'list_of_maps', 'nested_list'):
+                if kind_of(sval) == kind_of(cur) and sname not in ('list', 'map', 'list_of_maps', 'nested_list') and not sname.startswith('chunks_'):
                     continue
                 muts.append(('kind_swap:%s->%s' % (kind_of(cur), sname), p, sval))
             if wrappers and isinstance(cur, dict) and len(cur) == 1 and list(cur)[0] in type_names:
